@@ -95,7 +95,8 @@ def mask_work(P, item):
         m = M()
         m.header, m.chan_mask, m.threshold = H(), prev, "thr"
         m.chan_var, m.chan_skew, m.chan_kurt = "VAR", "SKEW", "KURT"
-        m.user_mask = m.stats_mask = m.custom_mask = None
+        # attrs defaults of the real class: all-false masks
+        m.user_mask, m.stats_mask, m.custom_mask = (np.zeros(nchans, dtype=bool) for _ in range(3))
 
         def method(arr, thr):
             calls.append((arr, thr))
